@@ -21,20 +21,21 @@ Definition A_KPOS := 8.  Definition A_KMAT := 9.   Definition A_KVAR := 10. Defi
 Definition C_FIELD := 20. Definition C_RAWF := 21. Definition C_RAWK := 22.
 Definition C_X := 23.     Definition C_Y := 24.    Definition C_Z := 25.
 Definition G_PERIOD := 30.
+Definition M_ANIS := 40.  Definition M_ANGLES := 41.
 
 Inductive entry :=
 | EVario | EVarioAxis | EStdBins | EFieldCall | EPostField | EApplyMNT | ERemoveTNM | ETransform
-| ESRFCall | EKrigeCond | EKrigeCall | ECondSRF | EFitVario | ENormalizer | EGenerator | EArrayFn.
+| ESRFCall | EKrigeCond | EKrigeCall | ECondSRF | EFitVario | ENormalizer | EGenerator | EArrayFn | ECovModel.
 
 Definition entries : list entry :=
   [EVario; EVarioAxis; EStdBins; EFieldCall; EPostField; EApplyMNT; ERemoveTNM; ETransform;
-   ESRFCall; EKrigeCond; EKrigeCall; ECondSRF; EFitVario; ENormalizer; EGenerator; EArrayFn].
+   ESRFCall; EKrigeCond; EKrigeCall; ECondSRF; EFitVario; ENormalizer; EGenerator; EArrayFn; ECovModel].
 
 Definition entry_id (e : entry) : nat :=
   match e with
   | EVario => 0 | EVarioAxis => 1 | EStdBins => 2 | EFieldCall => 3 | EPostField => 4 | EApplyMNT => 5
   | ERemoveTNM => 6 | ETransform => 7 | ESRFCall => 8 | EKrigeCond => 9 | EKrigeCall => 10
-  | ECondSRF => 11 | EFitVario => 12 | ENormalizer => 13 | EGenerator => 14 | EArrayFn => 15
+  | ECondSRF => 11 | EFitVario => 12 | ENormalizer => 13 | EGenerator => 14 | EArrayFn => 15 | ECovModel => 16
   end.
 
 Definition entry_of_id (n : nat) : option entry := nth_error entries n.
@@ -78,6 +79,7 @@ Definition dims (e : entry) : list nat :=
   | ENormalizer => [7; 6; 2; 2; 2; 3]       (* class; method; data f64/other; NaN; out-of-range; parameters default / lmbda=0 / other *)
   | EGenerator  => [3; 2; 2; 2]             (* generator; pos f64/other; nugget; non-default mean_u / sampling / mode grid *)
   | EArrayFn    => [8; 2; 3]
+  | ECovModel   => [6; 4; 5; 5; 4]
       (* gstools.transform.array_discrete,boxcox,zinnharvey,force_moments,to_lognormal,to_uniform,to_arcsin,
          to_uquad; data f64/other; numeric arguments default / two non-default sets *)
   end.
@@ -86,7 +88,7 @@ Definition nargs (e : entry) : nat :=
   match e with
   | EVario => 7 | EVarioAxis => 2 | EStdBins => 1 | EFieldCall => 2 | EPostField => 1 | EApplyMNT => 2
   | ERemoveTNM => 2 | ETransform => 2 | ESRFCall => 2 | EKrigeCond => 4 | EKrigeCall => 2 | ECondSRF => 1
-  | EFitVario => 3 | ENormalizer => 1 | EGenerator => 3 | EArrayFn => 3
+  | EFitVario => 3 | ENormalizer => 1 | EGenerator => 3 | EArrayFn => 3 | ECovModel => 3
   end.
 
 Definition nz (n : nat) : bool := negb (n =? 0).
@@ -101,6 +103,7 @@ Definition pre_attrs (e : entry) (c : list nat) : list attr :=
   | EKrigeCond => if nz (dg c 6) then [A_CPOS; A_CVAL; A_CEXT; A_KPOS; A_KMAT] else []
   | EKrigeCall => [A_CPOS; A_CVAL; A_CEXT; A_KPOS; A_KMAT]
                   ++ (if nz (dg c 9) then [A_POS; A_FIELD; A_KVAR] else [])
+  | ECovModel => if nz (dg c 0) then [M_ANIS; M_ANGLES] else []
   | ECondSRF => [A_CPOS; A_CVAL; A_CEXT; A_KPOS; A_KMAT]
                 ++ (if nz (dg c 7) then [A_POS; C_FIELD; C_RAWF; C_RAWK; A_FIELD; A_KVAR] else [])
   | _ => []
@@ -115,6 +118,7 @@ Definition obs_attrs (e : entry) : list attr :=
   | EKrigeCall => [A_POS; A_FIELD; A_KVAR; A_MEANF; A_A; A_B]
   | ECondSRF => [A_POS; C_FIELD; C_RAWF; C_RAWK; C_X; C_Y; C_Z; A_FIELD; A_KVAR]
   | EGenerator => [G_PERIOD]
+  | ECovModel => [M_ANIS; M_ANGLES]
   | _ => []
   end.
 
@@ -133,8 +137,11 @@ Definition when {A} (b : bool) (p : list A) : list A := if b then p else [].
 Definition mnt (fx : bool) (f p : var) : list prim :=
   when fx [New f 2 [f]] ++ [Write f 3 [p]; New f 4 [f]; Write f 3 [p]; Alias f f].
 
+(* Field.post_field: asarray/reshape view; process -> apply_mean_norm_trend; when saving unprocessed values
+   a COPY is stored and returned (since /repo 05af9f6; the pinned tree stored the view itself) *)
 Definition post_field (fx : bool) (f : var) (name : option attr) (process : bool) : list prim :=
-  [Alias f f] ++ when process (mnt fx f 10) ++ match name with Some a => [Store a f] | None => [] end.
+  [Alias f f] ++ when process (mnt fx f 10)
+  ++ match name with Some a => when (fx && negb process) [New f 2 [f]] ++ [Store a f] | None => [] end.
 
 Definition del_fields : list prim :=
   [Del A_FIELD; Del A_A; Del A_B; Del A_KVAR; Del A_MEANF].
@@ -250,14 +257,13 @@ Definition p_krige_cond (c : list nat) : list prim :=
   ++ [New 12 1 [10]; New 11 2 [11; 12]; New 10 2 [10; 12]; Store A_CPOS 11; Store A_CVAL 10]
   ++ when (nz (dg c 4)) [New 13 3 [10]; Write 13 4 []; New 14 5 [11; 13]]
   ++ match err with
-     | 2 => [Alias 15 3; Alias 15 15; Store A_CERR 15]
-     | 3 => [New 15 1 [3]; Alias 15 15; Store A_CERR 15]
+     | 2 | 3 => [New 15 1 [3]; Alias 15 15; Store A_CERR 15]   (* np.array copy since /repo 60e16ba *)
      | _ => [Del A_CERR]
      end
   ++ match ext with
      | 0 => [New 16 1 []]
-     | 1 => [Alias 16 2; Alias 16 16]
-     | _ => [New 16 1 [2]; Alias 16 16]
+     | 1 => [Alias 16 2; Alias 16 16; New 16 1 [16]]            (* asarray view, then .copy() since /repo 60e16ba *)
+     | _ => [New 16 1 [2]; Alias 16 16; New 16 1 [16]]
      end ++ [Store A_CEXT 16]
   ++ [New 17 6 [11]; Store A_KPOS 17; New 18 7 [17; 16]; Write 18 8 []; New 19 9 [18]; Store A_KMAT 19].
 
@@ -323,6 +329,55 @@ Definition p_array_fn (c : list nat) : list prim :=
   asarr 10 0 (dg c 1 =? 0)
   ++ [New 11 1 ([10] ++ when ((dg c 0 =? 0) && nz (dg c 2)) [1] ++ when ((dg c 0 =? 0) && (dg c 2 =? 1)) [2]); Ret 11].
 
+(* ---- CovModel construction and parameter setters (covmodel/base.py, covmodel/tools.py, tools/geometric.py).
+   digits: operation 0 constructor / 1 angles= / 2 anis= / 3 len_scale= / 4 integral_scale= / 5 dim= ;
+   model kind 0 plain / 1 temporal / 2 latlon / 3 latlon+temporal ;
+   angles and anis argument: 0 scalar or absent / 1 float64 ndarray of exactly the needed length /
+   2 float64 too short (padded) / 3 float64 too long (truncated) / 4 other dtype, list ;
+   len_scale (integral_scale) argument: 0 scalar / 1 float64 ndarray, one entry per axis / 2 float64 ndarray with one
+   entry / 3 list, one entry per axis.   Arguments: 0 angles, 1 anis, 2 len_scale. *)
+Definition ovar (o : option var) : list var := match o with Some v => [v] | None => [] end.
+
+(* set_anis: np.array(anis) (copy), slice view, np.pad if too short; result in 11 *)
+Definition set_anis_p (src : option var) (short : bool) : list prim :=
+  [New 11 1 (ovar src); Alias 11 11] ++ when short [New 11 2 [11]].
+
+(* set_len_anis: np.array(len_scale) (copy); several length scales -> anis = ratios written into np.zeros,
+   else set_anis(anis); latlon: out_anis[:2] = 1 in place; the model stores the result *)
+Definition set_len_anis_p (ls : option var) (multi : bool) (anis_src : option var) (short latlon : bool) : list prim :=
+  [New 10 1 (ovar ls); Alias 10 10]
+  ++ (if multi then [New 11 3 []; Write 11 4 [10]] else set_anis_p anis_src short)
+  ++ when latlon [Write 11 5 []] ++ [Store M_ANIS 11].
+
+(* set_model_angles: latlon -> zeros; else set_angles = np.asarray (alias iff float64 ndarray), atleast_1d/slice
+   views, np.pad ALWAYS (new array); temporal: out_angles[k:] = 0 in place on that new array *)
+Definition set_angles_p (src : option var) (f64 latlon temporal : bool) : list prim :=
+  (if latlon then [New 12 1 []]
+   else match src with Some v => asarr 12 v f64 | None => [New 12 1 []] end
+        ++ [Alias 12 12; New 12 2 [12]] ++ when temporal [Write 12 3 []])
+  ++ [Store M_ANGLES 12].
+
+Definition p_covmodel (c : list nat) : list prim :=
+  let op := dg c 0 in let kind := dg c 1 in let ang := dg c 2 in let ani := dg c 3 in let ls := dg c 4 in
+  let temporal := (kind =? 1) || (kind =? 3) in let latlon := 2 <=? kind in
+  let angsrc := if nz ang then Some 0 else None in
+  let ang64 := nz ang && (ang <? 4) in
+  let anisrc := if nz ani then Some 1 else None in
+  let anishort := (ani =? 0) || (ani =? 2) in
+  let lssrc := if nz ls then Some 2 else None in
+  let multi := (ls =? 1) || (ls =? 3) in
+  match op with
+  | 0 => set_len_anis_p lssrc multi anisrc anishort latlon ++ set_angles_p angsrc ang64 latlon temporal
+  | 1 => set_angles_p angsrc ang64 latlon temporal
+  | 2 => set_len_anis_p None false anisrc anishort latlon
+  | 3 => [Load 13 M_ANIS] ++ set_len_anis_p lssrc multi (Some 13) false latlon
+  | 4 => [Load 13 M_ANIS] ++ set_len_anis_p lssrc multi (Some 13) false latlon
+         ++ [Load 13 M_ANIS] ++ set_len_anis_p None false (Some 13) false latlon
+         ++ [Load 13 M_ANIS] ++ set_len_anis_p None false (Some 13) false latlon
+  | _ => [Load 13 M_ANIS] ++ set_len_anis_p None false (Some 13) true false
+         ++ [Load 14 M_ANGLES] ++ set_angles_p (Some 14) true latlon temporal
+  end.
+
 Definition prog (fx : bool) (e : entry) (c : list nat) : list prim :=
   match e with
   | EVario => p_vario fx c
@@ -340,6 +395,7 @@ Definition prog (fx : bool) (e : entry) (c : list nat) : list prim :=
   | ENormalizer => p_normalizer c
   | EGenerator => p_generator c
   | EArrayFn => p_array_fn c
+  | ECovModel => p_covmodel c
   end.
 
 Definition program := prog true.        (* the code as it is now *)
@@ -409,6 +465,7 @@ Definition wf_entry (fx : bool) (e : entry) (c : list nat) : bool :=
   wf (prog fx e c) (fun v => v <? nargs e) (fun a => existsb (Nat.eqb a) (pre_attrs e c)).
 
 (* ---- the finite checks *)
+Definition noalias_entry (e : entry) : bool := forallb (fun c => noalias0 (program e c)) (all_cfgs (dims e)).
 Definition safe_entry (e : entry) : bool := forallb (fun c => safe0 (program e c)) (all_cfgs (dims e)).
 Definition safe_all : bool := forallb safe_entry entries.
 Definition wf_all : bool :=
@@ -422,11 +479,14 @@ Proof. destruct e; simpl; tauto. Qed.
 Lemma safe_all_true : forallb safe_entry entries = true.
 Proof. vm_compute. reflexivity. Qed.
 
+Lemma noalias_all_true : forallb noalias_entry entries = true.
+Proof. vm_compute. reflexivity. Qed.
+
 Lemma wf_all_true :
   forallb (fun e => forallb (fun c => wf_entry true e c && wf_entry false e c) (all_cfgs (dims e))) entries = true.
 Proof. vm_compute. reflexivity. Qed.
 
-Lemma total_cfgs_value : total_cfgs = 57468%Z.
+Lemma total_cfgs_value : total_cfgs = 59868%Z.
 Proof. vm_compute. reflexivity. Qed.
 
 Lemma cfg_count_spec e : Z.of_nat (length (all_cfgs (dims e))) = cfg_count e.
@@ -463,6 +523,23 @@ Theorem no_caller_write :
     cell < length (heap st) ->
     nth_error (heap (run interp (program e c) st)) cell = nth_error (heap st) cell.
 Proof. intros e c Hc V interp st cell Hl. apply run_frame; auto. apply program_safe; auto. Qed.
+
+Lemma program_noalias e c : valid_cfg (dims e) c -> noalias0 (program e c) = true.
+Proof.
+  intros Hc.
+  exact (forallb_In (fun c => noalias0 (program e c)) (all_cfgs (dims e)) c
+           (forallb_In noalias_entry entries e noalias_all_true (entries_complete e))
+           (all_cfgs_complete _ _ Hc)).
+Qed.
+
+(* stored state never aliases caller arrays: after any public call every attribute of the object refers to a
+   buffer allocated by the call or to a buffer an attribute referred to before the call *)
+Theorem no_caller_alias :
+  forall e c, valid_cfg (dims e) c ->
+  forall (V : Type) (interp : nat -> list V -> V) (st : state (V := V)) a cell,
+    att (run interp (program e c) st) a = Some cell ->
+    length (heap st) <= cell \/ exists a', att st a' = Some cell.
+Proof. intros e c Hc V interp st a cell H. eapply run_noalias; eauto. apply program_noalias; auto. Qed.
 
 Definition is_public_call {V} (cl : call (V := V)) : Prop :=
   exists e c, valid_cfg (dims e) c /\ c_prog cl = program e c.
